@@ -171,15 +171,12 @@ def build(cfg, values=None):
             # a stiffened-panel bay whose (single) skin panel covers the whole domain: its aerodynamic matrices are those of the
             # equivalent stand-alone Panel with the same coefficients
             from . import c13
-            bcfg = {'m': m, 'n': n, 'stiffeners': [], 'cuts': 0}
+            # the edge flags are defined on the BAY before its skin is added (add_panel hands them to the skin panel): the reference
+            # panel carries the same flags
+            bcfg = {'m': m, 'n': n, 'stiffeners': [], 'cuts': 0,
+                    'flags': {c_ + e + d_: getattr(p, c_ + e + d_) for c_ in 'uvw' for e in ('1t', '1r', '2t', '2r') for d_ in 'xy'}}
             bay, comps = c13.make_bay(ctx, bcfg)
             bay.flow = flow
-            for c_ in 'uvw':
-                for e in ('1t', '1r', '2t', '2r'):
-                    for d_ in 'xy':
-                        setattr(bay, c_ + e + d_, getattr(p, c_ + e + d_))
-                        for sk in bay.panels:
-                            setattr(sk, c_ + e + d_, getattr(p, c_ + e + d_))
             p.a, p.b = bay.a, bay.b
             if model == 'cpanel':
                 bay.r = p.r
